@@ -43,12 +43,12 @@ type Video struct {
 
 // Stats describes one encoding, for the non-trivial rule of C15.
 type Stats struct {
-	Branches int // optional syntax branches taken
-	Signed   int // se(v) elements written
+	Branches      int // optional syntax branches taken
+	Signed        int // se(v) elements written
 	NonZeroSigned int // se(v) elements with a value != 0
-	MaxUEBits int // longest Exp-Golomb code written, in bits
-	Escapes  int // emulation prevention bytes inserted
-	Bits     int // RBSP length in bits incl. trailing bits
+	MaxUEBits     int // longest Exp-Golomb code written, in bits
+	Escapes       int // emulation prevention bytes inserted
+	Bits          int // RBSP length in bits incl. trailing bits
 }
 
 type coder interface {
